@@ -19,6 +19,7 @@ import sys
 import types
 import warnings
 from collections.abc import AsyncGenerator, Coroutine, Generator
+from typing import NoReturn
 
 DEFAULT_ROW = [[[], ['r', 'none']], [[], ['x', 'same']], [[], ['x', 'same']], [[], ['x', 'same']]]
 class UserBase(BaseException):
@@ -31,7 +32,9 @@ KINDS = ('gen', 'coro', 'agen')
 VARIANTS = {
     'gen': {'ok': ('true', 'any'), 'unchecked': ('true', 'any'), 'badobj': ('false', 'any')},
     'agen': {'ok': ('true', 'any'), 'unchecked': ('true', 'any'), 'badobj': ('false', 'any')},
-    'coro': {'int': ('true', 'int'), 'corohint': ('true', 'int'), 'unchecked': ('true', 'any')},
+    'coro': {'int': ('true', 'int'), 'corohint': ('true', 'int'), 'unchecked': ('true', 'any'),
+             # `-> NoReturn`: whatever the body returns violates (the wrapper still has to AWAIT the body first)
+             'noreturn': ('true', 'never'), 'coronoreturn': ('true', 'never')},
 }
 
 
@@ -94,6 +97,8 @@ def _raise(eexpr, exc):
 def _checked(v, mode, exc):
     # specification `checkRet`: a value returned while handling GeneratorExit reaches nobody and is not checked
     if mode == 'chk' and not isinstance(v, int) and type(exc) is not GeneratorExit:
+        raise ExpectedViolation()
+    if mode == 'never' and type(exc) is not GeneratorExit:
         raise ExpectedViolation()
     return v
 
@@ -176,6 +181,8 @@ _ANNOT = {
     ('coro', 'int'): {'return': int},
     ('coro', 'corohint'): {'return': Coroutine[None, None, int]},
     ('coro', 'unchecked'): {'table': list},
+    ('coro', 'noreturn'): {'return': NoReturn},
+    ('coro', 'coronoreturn'): {'return': Coroutine[None, None, NoReturn]},
 }
 _CACHE: dict = {}
 _QUIET = False
@@ -209,6 +216,8 @@ def spec_mode(kind, variant):
         return 'viol'
     if kind == 'coro' and variant in ('int', 'corohint'):
         return 'chk'
+    if kind == 'coro' and variant in ('noreturn', 'coronoreturn'):
+        return 'never'
     return 'plain'
 
 
